@@ -1127,9 +1127,12 @@ func (u *udpConn) Close() error {
 	if parent.connUDP != u {
 		// This connection is created by reading from a UDP server,
 		// need to clear itself from the UDP server.
-		parent.mux.Lock()
+		// the session map is guarded by the server's udpConn mutex (see getConn);
+		// the server connection's own mutex is held by the reading poller
+		// while it runs the open handler of a new session.
+		parent.connUDP.mux.Lock()
 		delete(parent.connUDP.conns, u.rAddrKey)
-		parent.mux.Unlock()
+		parent.connUDP.mux.Unlock()
 	} else {
 		// This connection is a UDP server or dialer, need to close itself
 		// and close all children if this is a server.
